@@ -736,15 +736,62 @@ def gen_c_function(rng):
 # ----------------------------------------------------------------------------------------------
 # the check
 # ----------------------------------------------------------------------------------------------
+BATCH_TIMEOUT = 150      # seconds for one driver process
+
+
+def run_driver(lines, timeout):
+    """same command as Ctx.driver, but in its own process group so that a timeout kills `lean` itself and not
+    only the `lake env` wrapper (an orphaned `lean --run` would keep a core busy)"""
+    import os
+    import signal
+    import subprocess
+    data = "".join(l + "\n" for l in lines)
+    p = subprocess.Popen(["lake", "env", "lean", "--run", "Drivers/C23.lean"], cwd=common.LEAN, stdin=subprocess.PIPE,
+                         stdout=subprocess.PIPE, stderr=subprocess.PIPE, text=True, start_new_session=True)
+    try:
+        out, err = p.communicate(data, timeout=timeout)
+    except subprocess.TimeoutExpired:
+        try:
+            os.killpg(p.pid, signal.SIGKILL)
+        except ProcessLookupError:
+            pass
+        p.communicate()
+        raise
+    replies = out.splitlines()
+    if p.returncode != 0 or len(replies) != len(lines):
+        raise common.BrokenCheck(f"driver C23: rc={p.returncode}, {len(replies)} replies for {len(lines)} requests\n"
+                                 + err[-2000:] + "\n" + "\n".join(replies[-5:]))
+    return replies
+BUDGET_REPLY = "ok budget"
+
+
+def driver_budgeted(ctx, reqs):
+    """ctx.driver with a time budget per driver process: a batch that does not finish is split in halves and
+    retried; a single request that does not finish is answered with BUDGET_REPLY (counted, never a pass)."""
+    import subprocess
+    if not reqs:
+        return []
+    try:
+        return run_driver(reqs, BATCH_TIMEOUT)
+    except subprocess.TimeoutExpired:
+        ctx.count("driver_batch_timeout")
+        if len(reqs) == 1:
+            ctx.count("oracle_search_budget_exhausted")
+            ctx.note("driver request exceeded the time budget: " + reqs[0][:300])
+            return [BUDGET_REPLY]
+        h = len(reqs) // 2
+        return driver_budgeted(ctx, reqs[:h]) + driver_budgeted(ctx, reqs[h:])
+
+
 def pdriver(ctx, reqs, chunks=4):
-    """ctx.driver over several driver processes in parallel (replies in request order)"""
+    """driver_budgeted over several driver processes in parallel (replies in request order)"""
     if len(reqs) < 40:
-        return ctx.driver("C23", reqs) if reqs else []
+        return driver_budgeted(ctx, reqs)
     from concurrent.futures import ThreadPoolExecutor
     k = (len(reqs) + chunks - 1) // chunks
     parts = [reqs[i:i + k] for i in range(0, len(reqs), k)]
     with ThreadPoolExecutor(len(parts)) as ex:
-        outs = list(ex.map(lambda part: ctx.driver("C23", part), parts))
+        outs = list(ex.map(lambda part: driver_budgeted(ctx, part), parts))
     return [r for o in outs for r in o]
 
 
@@ -845,6 +892,14 @@ def handle_cases(ctx, cases, extra=None):
                 ctx.disagree("do_shape model: exception", {"origin": c.origin, "cfg": cfg_tokens(c.cfg), "request": rq,
                                                           "exception": repr(cap.exc)[:200], "at": f"{tb.name}:{tb.line}"}, impl, rp)
             continue
+        if rp == BUDGET_REPLY:
+            # the combined validate+search request ran out of time: the skeleton is NOT counted as validated;
+            # it goes the rejection path with an exhausted search budget
+            ctx.count("validator_budget")
+            c.accepted = False
+            c.found = BUDGET_REPLY
+            rejected.append(c)
+            continue
         head, _, found = rp.partition(" | ")
         w = head.split()
         if len(w) < 3 or w[0] != "ok":
@@ -864,13 +919,18 @@ def handle_cases(ctx, cases, extra=None):
     # every rejection: search a concrete oracle
     if rejected:
         def fuel(c):
-            return min(3000, 150 + 3 * len(c.cap.tokens))
+            return min(1500, 150 + 3 * len(c.cap.tokens))
+
+        def max_oracles(c):
+            # a run of execK stops after K blocks and normally costs ~K * nesting depth steps; the cap only guards
+            # very large skeletons, the per-process time budget (BATCH_TIMEOUT) guards everything else
+            return 2348 if len(c.cap.tokens) <= 1500 else 600
         drep = [c.found for c in rejected]   # first search (2^6 decision prefixes) was done with the validation
         dreq = ["v-search"] * len(rejected)
         again = [i for i, rp in enumerate(drep) if not rp.startswith("ok differ")]
         if again:
-            dreq2 = ["d " + cfg_tokens(rejected[i].cfg) + " | " + " ".join(rejected[i].cap.tokens) + f" | 11 48 {fuel(rejected[i])} 300"
-                     for i in again]
+            dreq2 = ["d " + cfg_tokens(rejected[i].cfg) + " | " + " ".join(rejected[i].cap.tokens)
+                     + f" | 11 48 {fuel(rejected[i])} 300 {max_oracles(rejected[i])}" for i in again]
             for i, rp in zip(again, pdriver(ctx, dreq2)):
                 drep[i], dreq[i] = rp, dreq2[again.index(i)]
         for c, rq, rp in zip(rejected, dreq, drep):
@@ -888,8 +948,10 @@ def handle_cases(ctx, cases, extra=None):
                 ctx.fail(sig, f"find_structure/do_shape emit a control skeleton whose block trace differs from the CFG's "
                               f"(CFG class {c.cls}): {rp[3:]}", case, oracle=detail, confirmed_by_execution=confirmed)
             else:
+                if "budget" in rp:
+                    ctx.count("oracle_search_budget_exhausted")
                 ctx.disagree("validator rejects the emitted skeleton but no differing oracle was found "
-                             "(2^11 decision prefixes + 300 random oracles)", case, "emitted", rp)
+                             "(up to 2^11 decision prefixes + 300 random oracles, within the search budget)", case, "emitted", rp)
     return rejected
 
 
@@ -1965,7 +2027,7 @@ def expr_check(ctx):
             x, y = (av if shape == "vv" else (av[0], K) if shape == "vk" else (K, av[0]))
             sample_lean(t, op, x, y, want, always=True)
     if lean_reqs:
-        out = ctx.driver("C23", lean_reqs)
+        out = driver_budgeted(ctx, lean_reqs)
         for rq, w, o in zip(lean_reqs, lean_want, out):
             ctx.count("eval_expr_spec_crosscheck")
             if w != o:
